@@ -143,42 +143,57 @@ structure Sem where
   color : Ty → Rgb → Res String
   key : BLeaf → Res Prim
 
+def wrapRes (k : Nat) : Res String → Res String
+  | .ok v => .ok (wrapSome k v)
+  | .error e => .error e
+
+/-- a node for a type = the node for the type under its `opt` layers, wrapped in `some(…)`. -/
+def nodeVia (core : Ty → Res String) (t : Ty) : Res String :=
+  wrapRes (stripOpt t).1 (core (stripOpt t).2)
+
 mutual
-/-- meaning of a node for a type.  (`prop` is not part of the binary model.) -/
-def valNodeG (S : Sem) : BNode → Ty → Res String
-  | n, t =>
-    let (k, core) := stripOpt t
-    let r : Res String :=
-      match core, n with
-      | .ign, _ => .ok "ign"
-      | .prop _, _ => .error .beyond
-      | core, .leaf l => S.leaf core l
-      | core, .rgb col => S.color core col
-      | .seq et, .arr vs =>
-        match valNodesG S vs et [] with
-        | .ok items => .ok ("[" ++ joinComma items ++ "]")
-        | .error e => .error e
-      | .any, .arr vs =>
-        match valNodesG S vs .any [] with
-        | .ok items => .ok ("[" ++ joinComma items ++ "]")
-        | .error e => .error e
-      | .map _, .arr .nil => .ok "{}"
-      | .struct fs, .arr .nil => structFinish fs (slotsInit fs) []
-      | _, .arr _ => .error .type
-      | .map vt, .obj fs =>
-        match valMapG S fs vt [] with
-        | .ok items => .ok ("{" ++ joinComma items ++ "}")
-        | .error e => .error e
-      | .struct decl, .obj fs => valStructG S fs decl false (slotsInit decl)
-      | _, .obj _ => .error .type
-    match r with
-    | .ok v => .ok (wrapSome k v)
-    | .error e => .error e
+/-- meaning of a node for a type that is not an `opt`.  (`prop` is not part of the binary model.) -/
+def valCoreG (S : Sem) : BNode → Ty → Res String
+  | .leaf l, core =>
+    match core with
+    | .ign => .ok "ign"
+    | .prop _ => .error .beyond
+    | core => S.leaf core l
+  | .rgb col, core =>
+    match core with
+    | .ign => .ok "ign"
+    | .prop _ => .error .beyond
+    | core => S.color core col
+  | .arr vs, core =>
+    match core with
+    | .ign => .ok "ign"
+    | .prop _ => .error .beyond
+    | .seq et =>
+      match valNodesG S vs et [] with
+      | .ok items => .ok ("[" ++ joinComma items ++ "]")
+      | .error e => .error e
+    | .any =>
+      match valNodesG S vs .any [] with
+      | .ok items => .ok ("[" ++ joinComma items ++ "]")
+      | .error e => .error e
+    | .map _ => if vs.isNil then .ok "{}" else .error .type
+    | .struct fs => if vs.isNil then structFinish fs (slotsInit fs) [] else .error .type
+    | _ => .error .type
+  | .obj fs, core =>
+    match core with
+    | .ign => .ok "ign"
+    | .prop _ => .error .beyond
+    | .map vt =>
+      match valMapG S fs vt [] with
+      | .ok items => .ok ("{" ++ joinComma items ++ "}")
+      | .error e => .error e
+    | .struct decl => valStructG S fs decl false (slotsInit decl)
+    | _ => .error .type
 
 def valNodesG (S : Sem) : BNodes → Ty → List String → Res (List String)
   | .nil, _, acc => .ok acc
   | .cons v rest, t, acc =>
-    match valNodeG S v t with
+    match nodeVia (valCoreG S v) t with
     | .ok x => valNodesG S rest t (acc ++ [x])
     | .error e => .error e
 
@@ -189,7 +204,7 @@ def valMapG (S : Sem) : BFields → Ty → List String → Res (List String)
     match S.leaf .str k with
     | .error e => .error e
     | .ok ks =>
-      match valNodeG S v t with
+      match nodeVia (valCoreG S v) t with
       | .error e => .error e
       | .ok x => valMapG S rest t (acc ++ [ks ++ "=" ++ x])
 
@@ -210,11 +225,14 @@ def valStructG (S : Sem) : BFields → Fields → Bool → List (Option String) 
       match slots[i]?, decl.get? i with
       | some (some _), some (name, _, _) => .error (.duplicate name)
       | some none, some (_, _, fty) =>
-        match valNodeG S v fty with
+        match nodeVia (valCoreG S v) fty with
         | .error e => .error e
         | .ok x => valStructG S rest decl byToken (slots.set i (some x))
       | _, _ => .error .panic
 end
+
+/-- meaning of a node for a type. -/
+def valNodeG (S : Sem) (n : BNode) (t : Ty) : Res String := nodeVia (valCoreG S n) t
 
 /-- root request over a document. -/
 def valueOfG (S : Sem) (ty : RootTy) (d : BDoc) : Res String :=
